@@ -29,6 +29,8 @@ def runs(tier):
         ("edge orientation (source/target as handed to add_edge) reversed / alternating: G(0..4) x A3, G(5) x A2", [["--n", n, "--alpha", "A3", "--orient", o] for n in range(2, 5) for o in (1, 2)] + [["--n", 5, "--alpha", "A2", "--orient", o] for o in (1, 2)]),
         ("G(6) x U, double", [["--n", 6, "--alpha", "U"]]),
         ("G(5) with at most 7 edges x PM2 (every assignment of the distinct weights 2^0..2^(m-1): unique optimum, no ties that could mask a lost candidate)", [["--n", 5, "--alpha", "PM2", "--max-m", 7]]),
+        ("weights spanning 60 binary orders of magnitude: G(4) x A3 and G(5) x A2 (at most 8 edges), each with one more component = a single edge weighing 2^60",
+         [["--n", 4, "--alpha", "A3", "--plus-heavy-k2"], ["--n", 5, "--alpha", "A2", "--max-m", 8, "--plus-heavy-k2"]]),
         ("blob grammar K=3,T=2 x patterns U, M2, M3", [["--grammar", "blobs:3:2", "--alpha", a] for a in ("U", "M2", "M3")]),
         ("dense families x U", [["--families", "K:6,K:7,wheel:6,prism:4,petersen,Kb:3:4,grid:3:4,cube:3", "--alpha", "U"]]),
         ("symmetric families (antiprisms, prisms, Moebius ladders, ...) under 60 renumberings x U and under 30 renumberings x M2",
